@@ -145,6 +145,23 @@ def run(chk):
         specials.append(('custom object with extension_name, own extensions given', lambda: XA(x_p='v', extensions={'x-other-ext': {'a': 1}}, allow_custom=True), True))
         specials.append(('custom observable with extension_name', lambda: XB(x_p='v', name='n'), False))
         specials.append(('bundle of a custom object with extension_name', lambda: stix2.v21.Bundle(XA(x_p='v', name='n')), False))
+        # nested objects every property of which is optional and at its default: written as {} (defaulted optional properties are left out at every depth)
+        from stix2.properties import BooleanProperty as _BP, IntegerProperty as _IP, StringProperty as _SP
+        DP = [('reviewed', _BP(default=lambda: False)), ('score', _IP(default=lambda: 0)), ('analyst', _SP())]
+        for V, vn in ((stix2.v21, '2.1'), (stix2.v20, '2.0')):
+            if 'x-vf-c01-defaults-ext' not in _reg.STIX2_OBJ_MAPS[vn]['extensions']:
+                V.CustomExtension('x-vf-c01-defaults-ext', DP)(type('_XD' + vn[-1], (object,), {}))
+            XD = _reg.STIX2_OBJ_MAPS[vn]['extensions']['x-vf-c01-defaults-ext']
+            specials.append((f'{vn} file with an extension whose properties are all at their defaults (given as an object)', lambda V=V, XD=XD: V.File(name='f', extensions={'x-vf-c01-defaults-ext': XD()}), False))
+            specials.append((f'{vn} file with an extension whose properties are all at their defaults (spelled out in a dictionary)', lambda V=V: V.File(name='f', extensions={'x-vf-c01-defaults-ext': {'reviewed': False, 'score': 0}}), False))
+            specials.append((f'{vn} file with that extension, one property set', lambda V=V: V.File(name='f', extensions={'x-vf-c01-defaults-ext': {'analyst': 'a'}}), False))
+        specials.append(('2.0 observed-data member with an all-default extension', lambda: stix2.v20.ObservedData(objects={'0': {'type': 'file', 'name': 'f', 'extensions': {'x-vf-c01-defaults-ext': {'score': 0}}}}, first_observed=G.T1, last_observed=G.T1, number_observed=1), False))
+        specials.append(('2.1 bundle of a file with an all-default extension', lambda: stix2.v21.Bundle(stix2.v21.File(name='f', extensions={'x-vf-c01-defaults-ext': {}})), False))
+        # untyped content kept verbatim: members holding null and [] must survive
+        specials.append(('custom property holding a dictionary with null and [] members', lambda: stix2.v21.Identity(name='n', x_vf={'a': None, 'b': [], 'c': {'d': None, 'e': [None, []]}}, allow_custom=True), True))
+        specials.append(('dictionary property with null / [] values', lambda: stix2.v21.EmailMessage(is_multipart=False, additional_header_fields={'X-A': [], 'X-B': ['v']}), False))
+        specials.append(('unregistered extension-definition extension with null / [] members', lambda: stix2.v21.Identity(name='n', extensions={'extension-definition--a932fcc6-e032-476c-826f-cb970a5a1ade': {'extension_type': 'property-extension', 'p': None, 'q': [], 'r': {'s': None}}}), False))
+        specials.append(('bundle carrying an unregistered custom object with null / [] members', lambda: stix2.v21.Bundle(objects=[{'type': 'x-vf-unregistered', 'id': 'x-vf-unregistered--' + G.UUID, 'a': None, 'b': [], 'c': {'d': []}}], allow_custom=True), True))
         # STIX 2.0 observed-data whose members refer to each other, keys not in ascending order and more than ten members ("10" sorts before "2" as text)
         od_kw = dict(first_observed=G.T1, last_observed=G.T1, number_observed=1)
         specials.append(('observed-data: member keys in descending order of dependency', lambda: stix2.v20.ObservedData(objects={'1': {'type': 'directory', 'path': '/x'}, '0': {'type': 'file', 'name': 'f', 'parent_directory_ref': '1'}}, **od_kw), False))
